@@ -16,7 +16,7 @@ EXPLANATION = (
     '(accept() of the control connection, the first message of the spawned backend) are multiplexed with an object that '
     'becomes ready when the client / the child goes away. R3: every path that abandons a client (continue) closes its '
     'socket, except the explicit no-request (None header) branch. R4: the children/contexts registries are mutated only in '
-    'run (after a successful creation, or on delete) and by the constructor / signal clean-up. R5: every `mp.connection.wait` has a reason why multiprocessing.connection is imported at that point (explicit import, a Pipe end or the child\'s sentinel among the waited objects, or the work loop of a spawned child) - the accept thread of a stand-alone server waits on sockets before any Pipe or Process exists. R6: every call on the client\'s data socket in the server-side __setstate__ that can fail on a reset connection (getpeername, getsockname, ...) is made under a handler inside __setstate__ - the accept loop contains ConnectionClosedError only.')
+    'run (after a successful creation, or on delete) and by the constructor / signal clean-up. R5: every `mp.connection.wait` has a reason why multiprocessing.connection is imported at that point (explicit import, a Pipe end or the child\'s sentinel among the waited objects, or the work loop of a spawned child) - the accept thread of a stand-alone server waits on sockets before any Pipe or Process exists. R6: every call on the client\'s data socket in the server-side __setstate__ that can fail on a reset connection (getpeername, getsockname, ...) is made under a handler inside __setstate__ - the accept loop contains ConnectionClosedError only. R7: the per-thread restore state that carries the load-time patches (the client socket) is unconditionally re-initialised when a load begins (shared with C15.R1): an aborted request cannot leak the dead client\'s socket into the next client\'s worker.')
 TECHNIQUE = 'tainted exception edges vs handler position on the CFG, multiplexed-wait recogniser, must-pass-through, who-may-write'
 
 
@@ -157,6 +157,10 @@ def run(ctx):
                       f'`{short(e.call, 60)}` raises {e.exc} when the client has already reset the connection (e.g. it died right after sending its worker); nothing in __setstate__ catches it '
                       'and it is not a ConnectionClosedError, so it leaves the accept loop: the server stops and takes the workers of every other client with it', where=loc(ss, e.call))
     ctx.floor('fallible calls on the client data socket in __setstate__', n_cli, 2)
+    # R7: the accept thread unpickles every request with load-time patches (the client socket): a request whose load was aborted - the client died inside
+    # the control handshake - must leave nothing in the per-thread restore state, or the next client's worker is wired to the dead client's socket
+    from .c15 import check_residue
+    check_residue(ctx, 'R7')
     # the failures raised by these guards must be the class the server contains
     raised = {ctx.an.raised_class(n.exc, ss) for n in walk_local(ss.node) if isinstance(n, ast.Raise) and n.exc is not None}
     ctx.check('R2', 'server-side __setstate__ reports an abandoned start-up as ConnectionClosedError (the class the accept loop contains)',
